@@ -326,6 +326,7 @@ def touches {γ} (op : Op γ) (m : Name) : Bool :=
   | .write _ _ _ => false
   | .delete f => f == m
   | .backup f r => r && f == m
+  | .create f _ => f == m
 
 theorem step_keeps {γ} (d : Dir γ) (op : Op γ) (m : Name) (c : γ)
     (hg : get d m = some c) (ht : touches op m = false) : get (step d op).1 m = some c := by
@@ -354,6 +355,10 @@ theorem step_keeps {γ} (d : Dir γ) (op : Op γ) (m : Name) (c : γ)
         simp only [↓reduceIte]
         simp only [touches, Bool.true_and, beq_eq_false_iff_ne, ne_eq] at ht
         rw [get_put_ne _ _ _ _ hmn, get_del_ne d f m (fun hh => ht hh.symm)]; exact hg
+  | create f c' =>
+    simp only [touches, beq_eq_false_iff_ne, ne_eq] at ht
+    simp only [step]
+    rw [get_put_ne d f m c' (fun hh => ht hh.symm)]; exact hg
 
 theorem run_keeps {γ} (ops : List (Op γ)) :
     ∀ (d : Dir γ) (m : Name) (c : γ), get d m = some c →
@@ -388,6 +393,7 @@ theorem step_fresh {γ} (d : Dir γ) (op : Op γ) (n : Name) (h : (step d op).2 
         rw [hex] at this; cases this
       · apply (get_isSome_iff _ _).mp
         cases r <;> simp [get_put_self]
+  | create f c => simp [step] at h
 
 end Files
 
@@ -487,5 +493,113 @@ theorem recycleChoice_last {γ} (d : Dir γ) (name ext : Name) (k : Nat) (hk : 0
     | zero => omega
     | succ k => rw [List.range_succ]; simp
   rw [this]
+
+end Files
+
+namespace Files
+
+/-! ### files_of_type: which names are listed for a model -/
+
+theorem startsWith_iff : ∀ (s p : List Char), startsWith s p = true ↔ ∃ t, s = p ++ t
+  | [], [] => by simp [startsWith]
+  | _ :: _, [] => by simp [startsWith]
+  | [], b :: p => by simp [startsWith]
+  | a :: s, b :: p => by
+    simp only [startsWith, Bool.and_eq_true, beq_iff_eq, List.cons_append, List.cons.injEq]
+    rw [startsWith_iff s p]
+    constructor
+    · rintro ⟨rfl, t, rfl⟩; exact ⟨t, rfl, rfl⟩
+    · rintro ⟨t, rfl, rfl⟩; exact ⟨rfl, t, rfl⟩
+
+theorem endsWith_iff (s p : List Char) : endsWith s p = true ↔ ∃ t, s = t ++ p := by
+  unfold endsWith
+  rw [startsWith_iff]
+  constructor
+  · rintro ⟨t, h⟩
+    refine ⟨t.reverse, ?_⟩
+    have := congrArg List.reverse h
+    simpa using this
+  · rintro ⟨t, rfl⟩
+    exact ⟨t.reverse, by simp⟩
+
+/-- a name is listed for (model, ext) exactly when it is `model.ext` or `model~<anything>.ext` -/
+theorem ofTypeB_iff (model ext n : Name) :
+    ofTypeB model ext n = true ↔
+      n = model ++ '.' :: ext ∨ ∃ mid, n = model ++ '~' :: (mid ++ '.' :: ext) := by
+  unfold ofTypeB
+  simp only [Bool.or_eq_true, Bool.and_eq_true, beq_iff_eq, decide_eq_true_eq, startsWith_iff,
+    endsWith_iff]
+  constructor
+  · rintro (h | ⟨⟨⟨t, ht⟩, ⟨u, hu⟩⟩, hlen⟩)
+    · exact Or.inl h
+    · right
+      have hlt : t.length ≥ ext.length + 1 := by
+        have := congrArg List.length ht
+        simp only [List.length_append, List.length_cons, List.length_nil] at this
+        omega
+      have heq : (model ++ ['~']) ++ t = u ++ '.' :: ext := by rw [← ht, ← hu]
+      rcases List.append_eq_append_iff.mp heq with ⟨a', _, h2⟩ | ⟨c', _, h2⟩
+      · exact ⟨a', by rw [ht, h2]; simp⟩
+      · have hc : c' = [] := by
+          have := congrArg List.length h2
+          simp only [List.length_append, List.length_cons] at this
+          apply List.eq_nil_of_length_eq_zero
+          omega
+        subst hc
+        simp only [List.nil_append] at h2
+        exact ⟨[], by rw [ht, ← h2]; simp⟩
+  · rintro (h | ⟨mid, h⟩)
+    · exact Or.inl h
+    · right
+      refine ⟨⟨⟨mid ++ '.' :: ext, by rw [h]; simp⟩, ⟨model ++ '~' :: mid, by rw [h]; simp⟩⟩, ?_⟩
+      rw [h]
+      simp only [List.length_append, List.length_cons]
+      omega
+
+/-- every output of the model itself is listed -/
+theorem ofTypeB_own (model ext : Name) (j : Nat) : ofTypeB model ext (candidate model ext j) = true := by
+  rw [ofTypeB_iff]
+  cases j with
+  | zero => exact Or.inl rfl
+  | succ k => exact Or.inr ⟨pad2 k, rfl⟩
+
+/-- an output of another model is listed only when one model name is the other one followed
+by `~…` (then the two sequences of names really overlap: `m~00.pickle` is the first output of a
+model called `m~00` and the second one of a model called `m`) -/
+theorem ofTypeB_other (model model' ext : Name) (j : Nat)
+    (h : ofTypeB model ext (candidate model' ext j) = true) :
+    model' = model ∨ (∃ r, model' = model ++ '~' :: r) ∨ (∃ r, model = model' ++ '~' :: r) := by
+  rw [ofTypeB_iff] at h
+  cases j with
+  | zero =>
+    simp only [candidate] at h
+    rcases h with h | ⟨mid, h⟩
+    · exact Or.inl (List.append_cancel_right h)
+    · have h' : model' ++ '.' :: ext = (model ++ '~' :: mid) ++ '.' :: ext := by rw [h]; simp
+      exact Or.inr (Or.inl ⟨mid, List.append_cancel_right h'⟩)
+  | succ k =>
+    simp only [candidate] at h
+    rcases h with h | ⟨mid, h⟩
+    · have h' : (model' ++ '~' :: pad2 k) ++ '.' :: ext = model ++ '.' :: ext := by rw [← h]; simp
+      exact Or.inr (Or.inr ⟨pad2 k, (List.append_cancel_right h').symm⟩)
+    · have h' : (model' ++ '~' :: pad2 k) ++ '.' :: ext = (model ++ '~' :: mid) ++ '.' :: ext := by
+        simpa using h
+      have h2 := List.append_cancel_right h'
+      rcases List.append_eq_append_iff.mp h2 with ⟨a', ha, hb⟩ | ⟨c', hc, hd⟩
+      · -- model = model' ++ a'
+        cases a' with
+        | nil => left; simpa using ha.symm
+        | cons x r =>
+          simp only [List.cons_append, List.cons.injEq] at hb
+          right; right; exact ⟨r, by rw [ha, hb.1]⟩
+      · cases c' with
+        | nil => left; simpa using hc
+        | cons x r =>
+          simp only [List.cons_append, List.cons.injEq] at hd
+          right; left; exact ⟨r, by rw [hc, hd.1]⟩
+
+theorem mem_ofType (names : List Name) (model ext n : Name) :
+    n ∈ ofType names model ext ↔ n ∈ names ∧ ofTypeB model ext n = true := by
+  simp [ofType]
 
 end Files
